@@ -110,6 +110,41 @@ pub fn run(rep: &mut Rep) {
         if cut < req.len() && v_rln(&c, t) == V::True {
             m.rep.violation("verify_rln_proof:accepts-truncated-request", json!({"cut": cut}));
         }
+        if cut < req.len() && v_roots(&c, t, &roots1) == V::True {
+            m.rep.violation("verify_with_roots:accepts-truncated-request", json!({"cut": cut}));
+        }
+    }
+    // ---- truncations of messages whose signal is empty / one byte long: every proper prefix, through both
+    // request-taking entry points (the prefixes 288..295 of an empty-signal request end inside the length field)
+    for sig in [Vec::new(), vec![0x5au8], vec![0u8; 9]] {
+        let preq = enc_prove_request(&case.secret, case.index as u64, &Fr::from(case.limit), &Fr::from(case.id), &case.ext, &sig);
+        let mut mm = vec![];
+        match catch(|| c.rln.generate_rln_proof(Cursor::new(preq), &mut mm).map_err(|e| e.to_string())) {
+            Ok(Ok(())) => {}
+            _ => {
+                m.rep.inconclusive("could not generate a short-signal base message (C01 territory)".to_string());
+                continue;
+            }
+        }
+        let full = enc_verify_request(&mm, &sig);
+        if v_rln(&c, &full) != V::True {
+            m.rep.inconclusive("control failed: short-signal base message not accepted".to_string());
+            continue;
+        }
+        for cut in 0..full.len() {
+            let t = &full[..cut];
+            let kind = format!("truncated(signal_len={})@{}", sig.len(), region(cut.saturating_sub(1).min(full.len() - 1)));
+            let v1 = v_rln(&c, t);
+            let v2 = v_roots(&c, t, &roots1);
+            m.crash("verify_rln_proof", &kind, &v1, json!({"cut": cut, "full_len": full.len()}));
+            m.crash("verify_with_roots(msg)", &kind, &v2, json!({"cut": cut, "full_len": full.len()}));
+            if v1 == V::True {
+                m.rep.violation("verify_rln_proof:accepts-truncated-request", json!({"cut": cut, "full_len": full.len(), "signal_len": sig.len()}));
+            }
+            if v2 == V::True {
+                m.rep.violation("verify_with_roots:accepts-truncated-request", json!({"cut": cut, "full_len": full.len(), "signal_len": sig.len()}));
+            }
+        }
     }
     // ---- declared signal length
     let sl = signal.len() as u64;
